@@ -300,10 +300,20 @@ def full_name_members(chk, pid):
         if is_root:
             ok = v[0] == "fld" and v[2] == "name"
     chk.ob("C19.R4", ok, CORE, "Node.full_name", "full-name-root", "a root's full name is its name", where=F.fn.where)
-    M = chk.summary(CORE, "Node", "members", host="Node", no_inline=("members",))
-    ext = [e for e in M.events if e.kind == "call" and e.name == "extend"]
-    ok = bool(ext) and ext[0].loops and not ext[0].loops[-1].filter
-    chk.ob("C19.R2", ok, CORE, "Node.members", "members-recursive", "members are the node plus the members of every child", where=M.fn.where)
+    from .algo_equiv import check_equiv
+
+    check_equiv(chk, "C19.R2", CORE, "Node", "members", MEMBERS_REF, "members-recursive",
+                "members are computed afresh on every read: the node plus the members of every current child (children may be created lazily at any time, so nothing may be cached)",
+                no_inline=("members",))
+
+
+MEMBERS_REF = '''
+def ref(self):
+    res = [self]
+    for c in list(self.children.values()):
+        res.extend(c.members)
+    return res
+'''
 
 
 def backtest_init_rules(chk, pid):
